@@ -70,7 +70,10 @@ func replay() {
 			}
 			ts.Close()
 		default:
-			run.Fatal("witness names no scenario")
+			// race witnesses carry the detector's report, not a scenario: re-run the part whose
+			// workload attaches several connections to one session
+			controlPart()
+			return
 		}
 	}
 }
